@@ -211,23 +211,27 @@ end CwMt.Gen.Rules
 """)
 
 
-def translate(root, log):
+def translate(root, log, part=None):
+    """part = "reply" (C03) / "verify" (C13): whose problems are reported; the generated file always holds both tables"""
     problems = []
     try:
         src = cut_tests(C.strip_comments(C.read_src("wasm.rs")))
         arms, n1 = read_reply(src)
         steps, n2 = read_verify(src)
     except Exception as e:
-        arms, steps, n1, n2 = [{"outcome": "?", "modes": ["?"], "fields": []}], [("?", "?", "?")], ["%r" % (e,)], []
-    problems += ["tr_rules: " + n for n in n1 + n2]
+        arms, steps, n1, n2 = [{"outcome": "?", "modes": ["?"], "fields": []}], [("?", "?", "?")], ["%r" % (e,)], ["%r" % (e,)]
     C.write_if_changed(os.path.join(root, "lean", "CwMt", "Gen", "Rules.lean"), lean_file(arms, steps), log)
     got = [dict(a, fields=[tuple(f) for f in a["fields"]]) for a in arms]
-    if got != EXPECTED_ARMS:
-        problems.append("tr_rules: execute_submsg's reply rule differs from the one Engine.executeSubmsg transcribes: %s" % (
-            [(a["outcome"], a["modes"], a["fields"]) for a in got if a not in EXPECTED_ARMS],))
-    if steps != EXPECTED_VERIFY:
-        problems.append("tr_rules: response validation differs from the one attrOk/eventOk/responseOk transcribe: %s" % (
-            [s for s in steps if s not in EXPECTED_VERIFY] + [("missing",) + s for s in EXPECTED_VERIFY if s not in steps],))
+    if part in (None, "reply"):
+        problems += ["tr_rules: " + n for n in n1]
+        if got != EXPECTED_ARMS:
+            problems.append("tr_rules: execute_submsg's reply rule differs from the one Engine.executeSubmsg transcribes: %s" % (
+                [(a["outcome"], a["modes"], a["fields"]) for a in got if a not in EXPECTED_ARMS],))
+    if part in (None, "verify"):
+        problems += ["tr_rules: " + n for n in n2]
+        if steps != EXPECTED_VERIFY:
+            problems.append("tr_rules: response validation differs from the one attrOk/eventOk/responseOk transcribe: %s" % (
+                [s for s in steps if s not in EXPECTED_VERIFY] + [("missing",) + s for s in EXPECTED_VERIFY if s not in steps],))
     return {"problems": problems, "counterexamples": [],
             "summary": {"reply_arms": [(a["outcome"], a["modes"]) for a in arms], "verify_steps": len(steps)}}
 
